@@ -536,4 +536,38 @@ theorem cacheAll_refreshPhases {Q : Entry → Prop} (s : State) (now : Nat)
   simp only [refreshResolvers]
   exact cacheAll_refreshResolversGo now hq2 _ _ h1
 
+/-! ### more frames -/
+
+@[simp] theorem addPending_ipInterval (s : State) (now : Nat) (i : BList) : (addPending s now i).ipInterval = s.ipInterval := by
+  unfold addPending
+  split <;> rfl
+
+@[simp] theorem addPendings_ipInterval (now : Nat) : ∀ (l : List BList) (s : State),
+    (addPendings s now l).ipInterval = s.ipInterval
+  | [], _ => rfl
+  | i :: rest, s => by
+    simp only [addPendings]
+    rw [addPendings_ipInterval now rest, addPending_ipInterval]
+
+@[simp] theorem resolveUpdated_ipInterval (s : State) (now : Nat) (u : List BList) :
+    (resolveUpdated s now u).1.ipInterval = s.ipInterval := by
+  unfold resolveUpdated
+  split
+  · rfl
+  · simp only [addPendings_ipInterval, markResolved]
+
+theorem evictAddrHosts_ipInterval (now : Nat) (items : List (BList × BList × BList × Nat)) :
+    ∀ (hosts : List BList) (s : State), (evictAddrHosts s now items hosts).1.ipInterval = s.ipInterval
+  | [], _ => rfl
+  | h :: rest, s => by
+    simp only [evictAddrHosts]
+    rw [evictAddrHosts_ipInterval now items rest, resolveUpdated_ipInterval]
+
+theorem evictAddrHosts_queriers (now : Nat) (items : List (BList × BList × BList × Nat)) :
+    ∀ (hosts : List BList) (s : State), (evictAddrHosts s now items hosts).1.queriers = s.queriers
+  | [], _ => rfl
+  | h :: rest, s => by
+    simp only [evictAddrHosts]
+    rw [evictAddrHosts_queriers now items rest, resolveUpdated_queriers]
+
 end Mdns.Client
